@@ -235,6 +235,10 @@ func maprand() uint64 {
 	return simmix(simMapSeed, simMapSalt)
 }
 
+// SimGoid identifies the calling goroutine (lets the simulator tell its tasks from finalizers and other
+// goroutines it does not schedule).
+func SimGoid() int64 { return int64(getg().goid) }
+
 func mapiterrand(h *hmap) uint64 {
 	if simMapSeed == 0 {
 		return rand()
